@@ -383,6 +383,23 @@ def arch_hyper(ctx, families=None, mean_units=None):
     return MolAst([s], arch="hyper")
 
 
+def arch_comb(ctx, families=None, mean_units=None):
+    """(12) comb: every backbone unit carries a zero-weight site that is only capped at finalisation, optionally
+    mixed with a plain unit; several zero-weight descriptors are open at the same time"""
+    r = ctx.rng
+    bb = ctx.unit([ctx.lt(), ctx.lt(weight=0.0), ctx.gt()])
+    units = [bb]
+    if r.random() < 0.5:
+        units.append(ctx.unit([ctx.lt(weight=r.choice([None, 0.3, 2.0])), ctx.gt()]))
+    ends = [ctx.end(ctx.gt()), ctx.end(ctx.lt())]
+    if r.random() < 0.5:
+        s = StochAst(D(""), D(""), units, ends, _dist_for(ctx, units, mean_units or r.choice([1.5, 3, 4]), families=families))
+        return MolAst([s], arch="comb")
+    lt, rt = ctx.gt(), ctx.lt()
+    s = StochAst(D(lt.sym, lt.id), D(rt.sym, rt.id), units, ends, _dist_for(ctx, units, mean_units or r.choice([1.5, 3, 4]), families=families))
+    return MolAst([ctx.plain(), s, ctx.plain()], arch="comb")
+
+
 def arch_lists(ctx, families=None, mean_units=None):
     """(10) explicit transition lists (optionally addressing end groups)"""
     from .ref.compat import compat
@@ -425,7 +442,32 @@ ARCHETYPES = {
     "graft": arch_graft,
     "hyper": arch_hyper,
     "lists": arch_lists,
+    "comb": arch_comb,
 }
+
+
+def scale_weights(m, factor):
+    """multiply every written weight of a molecule by one factor: no decision of the selection law changes"""
+    def sc(d):
+        if d.sym == "":
+            return
+        if isinstance(d.weight, (list, tuple)):
+            d.weight = [float(w) * factor for w in d.weight]
+        else:
+            d.weight = d.eff_weight * factor
+
+    for e in m.elements:
+        if isinstance(e, StochAst):
+            for t in e.repeats + e.ends:
+                for d, _ in t.descriptors():
+                    sc(d)
+            if e.left.weight is not None:
+                sc(e.left)
+        else:
+            for d, _ in e.descriptors():
+                if d.weight != 0.0:
+                    sc(d)
+    return m
 
 
 def make_molecule(rng, arch=None, small=False, typable=False, form=None, families=None, mean_units=None, ids=None):
@@ -435,6 +477,8 @@ def make_molecule(rng, arch=None, small=False, typable=False, form=None, familie
         try:
             m = ARCHETYPES[arch](ctx, families, mean_units)
             m.arch = arch
+            if rng.random() < 0.12:
+                scale_weights(m, rng.choice([1e-9, 1e-9, 1e6, 3e-10]))
             return m
         except ValueError:
             continue
